@@ -899,6 +899,26 @@ func check(id, tier string, runsOverride, secsOverride int) int {
 			}
 			rf.Trace = tr
 		}
+		// A worker built with the race detector needs several times the memory of a
+		// plain one. A memory blow-up seen there counts only if the plain build of
+		// the same run blows up too; otherwise it is the detector's overhead on a
+		// large (but legal) world, i.e. nothing zapx did.
+		if f.variant.Race && f.viol.Oracle == "memory-blowup" {
+			pv := vDef
+			if f.variant.Tags == vVec.Tags {
+				pv = vVec
+			}
+			if err := buildWorker(pv); err != nil {
+				fmt.Fprintf(os.Stderr, "memory blow-up in run %d (%s): could not build the plain twin: %v\n", f.run, f.variant.Name, err)
+				unstable = true
+				continue
+			}
+			_, pst, pcode := replayOnce(pv, &rf, 300*time.Second)
+			if cv, ok := crashViolation(pst, pcode); !ok || cv.Oracle != "memory-blowup" {
+				fmt.Fprintf(os.Stderr, "note: run %d exceeded the memory limit in the %s worker only (race-detector overhead on a large world; the plain build stays below the limit): not a violation\n", f.run, f.variant.Name)
+				continue
+			}
+		}
 		// reproduce first. One attempt is enough unless the violation depends on
 		// something no seed controls: sync.Pool randomness under -race, or the order
 		// in which zapx walks its section map (Go map iteration). Then it replays
